@@ -323,6 +323,8 @@ pub struct MSink {
     /// real names for elem_name (atoms), parallel to dom.nodes
     names: RefCell<Vec<Option<(Namespace, LocalName)>>>,
     pub rc: Option<RcDom>,
+    /// set while a composite operation has already been forwarded to RcDom as ONE call
+    rc_forwarded: Cell<bool>,
     rc_handles: RefCell<Vec<Option<RcHandle>>>,
     pub contract: RefCell<Vec<String>>,
     pub errors: RefCell<Vec<String>>,
@@ -352,6 +354,7 @@ impl MSink {
             dom: RefCell::new(Dom::new()),
             names: RefCell::new(vec![None]),
             rc,
+            rc_forwarded: Cell::new(false),
             rc_handles: RefCell::new(vec![h0]),
             contract: RefCell::new(vec![]),
             errors: RefCell::new(vec![]),
@@ -627,7 +630,7 @@ impl TreeSink for MSink {
                 }
             }
         }
-        if let (Some(rc), Some(ph), Some(rcc)) = (&self.rc, self.rch(*parent), self.rc_child(&c)) {
+        if let (false, Some(rc), Some(ph), Some(rcc)) = (self.rc_forwarded.get(), &self.rc, self.rch(*parent), self.rc_child(&c)) {
             rc.append(&ph, rcc);
         }
         self.dom.borrow_mut().append(*parent, c.clone());
@@ -638,11 +641,26 @@ impl TreeSink for MSink {
         self.check_live("append_based_on_parent_node(element)", *element);
         self.check_live("append_based_on_parent_node(prev)", *prev_element);
         let has_parent = self.dom.borrow().nodes[*element].parent.is_some();
+        // RcDom gets the operation as the one call the tree builder makes (it decides by its own parent link);
+        // the model side is decomposed, with forwarding switched off
+        let mut forwarded = false;
+        if let (Some(rc), Some(eh), Some(ph)) = (&self.rc, self.rch(*element), self.rch(*prev_element)) {
+            let rcc = match &child {
+                NodeOrText::AppendNode(n) => self.rch(*n).map(NodeOrText::AppendNode),
+                NodeOrText::AppendText(t) => Some(NodeOrText::AppendText(t.clone())),
+            };
+            if let Some(rcc) = rcc {
+                rc.append_based_on_parent_node(&eh, &ph, rcc);
+                forwarded = true;
+            }
+        }
+        let before = self.rc_forwarded.replace(forwarded || self.rc_forwarded.get());
         if has_parent {
             self.append_before_sibling(element, child)
         } else {
             self.append(prev_element, child)
         }
+        self.rc_forwarded.set(before);
     }
     fn append_doctype_to_document(&self, name: StrTendril, public_id: StrTendril, system_id: StrTendril) {
         self.note_call("append_doctype_to_document");
@@ -744,7 +762,7 @@ impl TreeSink for MSink {
                 return;
             }
         }
-        if let (Some(rc), Some(sh), Some(rcc)) = (&self.rc, self.rch(*sibling), self.rc_child(&c)) {
+        if let (false, Some(rc), Some(sh), Some(rcc)) = (self.rc_forwarded.get(), &self.rc, self.rch(*sibling), self.rc_child(&c)) {
             rc.append_before_sibling(&sh, rcc);
         }
         self.dom.borrow_mut().append_before_sibling(*sibling, c.clone());
